@@ -36,6 +36,19 @@ def hx(x):
     return "%016x" % struct.unpack("<Q", struct.pack("<d", float(x)))[0]
 
 
+_CPLX = {"on": False, "rng": None}
+
+
+def cv(x):
+    """a coefficient in the layout of the build under test: one hex word (real) or two (complex; every third
+    coefficient gets a non-zero imaginary part)"""
+    if not _CPLX["on"]:
+        return hx(x)
+    r = _CPLX["rng"]
+    im = r.choice([0.0, 0.0, 0.5, -1.0, 0.25]) if x not in (0.0, 1e-14) else 0.0
+    return hx(x) + " " + hx(im)
+
+
 def mono_str(m):
     return "%d %s" % (len(m), " ".join("%d %d" % (a, i) for a, i in m)) if m else "0"
 
@@ -52,12 +65,13 @@ def rand_mono(r, M, maxlen):
 def rand_poly_def(r, name, M, maxlen, nterms):
     ts = []
     for _ in range(nterms):
-        ts.append("%s %s" % (hx(coef(r)), mono_str(rand_mono(r, M, maxlen))))
+        ts.append("%s %s" % (cv(coef(r)), mono_str(rand_mono(r, M, maxlen))))
     return "def %s %d %s" % (name, len(ts), " ".join(ts))
 
 
-def gen_script(ctx):
+def gen_script(ctx, cplx=False):
     r = ctx.rng
+    _CPLX["on"], _CPLX["rng"] = cplx, r
     thorough = ctx.tier == "thorough"
     lines = []
     # 1. exhaustive raw monomials
@@ -75,7 +89,7 @@ def gen_script(ctx):
     for m in rec([]):
         k += 1
         nm = "E%d" % k
-        lines.append("def %s 1 %s %s" % (nm, hx(1.0), mono_str(m)))
+        lines.append("def %s 1 %s %s" % (nm, cv(1.0), mono_str(m)))
         if k % 7 == 0 or len(m) <= 2:
             for ket in range(1 << Mex):
                 lines.append("act %s %d %d" % (nm, Mex, ket))
@@ -95,9 +109,9 @@ def gen_script(ctx):
                   "eq R%d_l R%d_r" % (t, t),
                   "add R%d_s %s %s" % (t, a, b), "sub R%d_d %s %s" % (t, a, b), "sub R%d_z %s %s" % (t, a, a),
                   "comm R%d_c %s %s" % (t, a, b), "acomm R%d_ac %s %s" % (t, a, b),
-                  "smul R%d_m %s %s" % (t, hx(coef(r)), a), "smul R%d_m0 %s %s" % (t, hx(0.0), a),
-                  "smul R%d_mt %s %s" % (t, hx(1e-14), a),
-                  "neg R%d_n %s" % (t, a), "addc R%d_k %s %s" % (t, hx(coef(r)), a),
+                  "smul R%d_m %s %s" % (t, cv(coef(r)), a), "smul R%d_m0 %s %s" % (t, cv(0.0), a),
+                  "smul R%d_mt %s %s" % (t, cv(1e-14), a),
+                  "neg R%d_n %s" % (t, a), "addc R%d_k %s %s" % (t, cv(coef(r)), a),
                   "eq %s %s" % (a, b), "eq %s %s" % (a, a), "eq R%d_s R%d_d" % (t, t),
                   "commutes %s %s" % (a, b), "commutes %s %s" % (a, a), "commutes R%d_ab %s" % (t, c)]
         for ket in range(1 << M):
@@ -109,11 +123,11 @@ def gen_script(ctx):
         m = rand_mono(r, M, 6)
         if r.chance(1, 3) and len(m) >= 2:
             m[1] = m[0]
-        lines.append("prod Q%d %s %s" % (t, hx(coef(r)), mono_str(m)))
+        lines.append("prod Q%d %s %s" % (t, cv(coef(r)), mono_str(m)))
     # 3. equality corner cases (prefix monomials), N and Sz
-    lines += ["def X1 1 %s 1 0 0" % hx(1.0), "def X2 1 %s 2 0 0 1 1" % hx(1.0), "eq X1 X2", "eq X2 X1",
-              "def X3 2 %s 1 0 0 %s 1 0 0" % (hx(1.0), hx(-1.0)), "def X4 0", "eq X3 X4",
-              "def X5 1 %s 1 0 0" % hx(1.0 + 2e-14), "eq X1 X5"]
+    lines += ["def X1 1 %s 1 0 0" % cv(1.0), "def X2 1 %s 2 0 0 1 1" % cv(1.0), "eq X1 X2", "eq X2 X1",
+              "def X3 2 %s 1 0 0 %s 1 0 0" % (cv(1.0), cv(-1.0)), "def X4 0", "eq X3 X4",
+              "def X5 1 %s 1 0 0" % cv(1.0 + 2e-14), "eq X1 X5"]
     for M in range(1, 6 if thorough else 4):
         for ket in range(1 << M):
             lines.append("nop %d %d" % (M, ket))
@@ -124,13 +138,23 @@ def gen_script(ctx):
                 if M <= 4 or r.chance(1, 8):
                     lines.append("sz %d %d %s %d" % (M, len(ups), " ".join(map(str, ups)), ket))
     lines.append("sz 3 1 0 5")    # unequal counts: throws
+    # two-list constructor with lists that do not cover all modes of the state
+    for _ in range(400 if thorough else 80):
+        M = r.range(2, 6)
+        modes = list(range(M))
+        r.shuffle(modes)
+        k = r.range(0, M // 2)
+        ups, dns = modes[:k], modes[k:2 * k]
+        if r.chance(1, 10):
+            dns = dns[:-1] if dns else [modes[-1]]       # unequal lengths: throws
+        lines.append("sz2 %d %d %s %d %s %d" % (M, len(ups), " ".join(map(str, ups)), len(dns), " ".join(map(str, dns)), r.below(1 << M)))
     return lines
 
 
 def correspondence(ctx):
-    cmds = gen_script(ctx)
-    variants = ["real"] if ctx.tier == "quick" else ["real", "complex"]
+    variants = ["real", "complex"]
     for variant in variants:
+        cmds = gen_script(ctx, variant == "complex")
         exe = pmlib.build_harness("opalg", variant)
         rc, out, err = pmlib.run_harness(exe, [], "\n".join(cmds) + "\n", timeout=1800)
         san = pmlib.sanitizer_report(err)
@@ -149,7 +173,7 @@ def correspondence(ctx):
                 lhs, rhs = l.split(" => ")
                 if " ".join(lhs.split()[3:]) != rhs.strip():
                     ctx.distinct.add(l)
-            elif kind in ("mul", "comm", "acomm", "add", "sub", "eq", "commutes", "act", "prod", "smul", "sz", "nop"):
+            elif kind in ("mul", "comm", "acomm", "add", "sub", "eq", "commutes", "act", "prod", "smul", "sz", "sz2", "nop"):
                 ctx.distinct.add(variant + l)
         if not ctx.samples:
             ctx.samples = [l for l in obs if l.startswith("o mul")][:3] + [l for l in obs if l.startswith("o def")][40:42] \
